@@ -3251,8 +3251,12 @@ impl RelationalEngine {
                 });
             }
 
-            // Index gives us row IDs - take only what we need
-            let limited_ids: Vec<u64> = row_ids.into_iter().take(target_count).collect();
+            // The index returns candidates in index order (insertion or value order),
+            // and they still have to pass the condition re-check. The window is
+            // defined over the matching rows in id order, so it can only be cut
+            // after the re-check and the sort below, never on the candidate list.
+            let _ = target_count;
+            let limited_ids: Vec<u64> = row_ids;
 
             let indices: Vec<usize> = limited_ids
                 .iter()
